@@ -1093,6 +1093,11 @@ pub fn run(spec: &RunSpec, ty: &dyn TyObj, want_log: bool) -> RunResult {
                 let mut counts: BTreeMap<Vec<u8>, u64> = BTreeMap::new();
                 let mut aborted = false;
                 let mut census_draws = 0u64;
+                // window = all calls for an ordinary census (64 r or 128 r calls); 128 r for a soak
+                let window: u64 = if (*samples as u64) > 256 * r { 128 * r } else { *samples as u64 };
+                let mut in_window = 0u64;
+                let mut windows_done = 0u64;
+                let mut worst: Option<(Vec<u8>, u64, u64)> = None;
                 for ci in 0..*samples as usize {
                     calls_total += 1;
                     rng.forget_events();
@@ -1117,8 +1122,24 @@ pub fn run(spec: &RunSpec, ty: &dyn TyObj, want_log: bool) -> RunResult {
                         aborted = true;
                         break;
                     }
-                    fp.b(&v);
+                    if *samples as u64 <= 256 * r {
+                        fp.b(&v);
+                    } else {
+                        fp.u(v[0] as u64);
+                    }
                     *counts.entry(v).or_insert(0) += 1;
+                    in_window += 1;
+                    if in_window == window && (ci as u64 + 1) + window <= *samples as u64 {
+                        // a full window with at least one more to come: evaluate and start over
+                        let m = window / r;
+                        if let Some((x, c)) = census_window(&counts, low, r, width, m / 8, 3 * m + 8) {
+                            worst = Some((x, c, windows_done));
+                            break;
+                        }
+                        counts.clear();
+                        in_window = 0;
+                        windows_done += 1;
+                    }
                     census_draws += evs.len() as u64;
                     if census_draws > 64 * *samples as u64 + 4096 {
                         // fewer than one word in 64 accepted: not what this oracle is about (and unaffordable)
@@ -1131,31 +1152,31 @@ pub fn run(spec: &RunSpec, ty: &dyn TyObj, want_log: bool) -> RunResult {
                 if aborted {
                     continue;
                 }
-                // Every value's count is Binomial(samples, 1/r) for ANY sampler with equal preimage counts fed with
-                // independent uniform words (rejected words are simply redrawn). With mean m = samples / r >= 64:
-                // P(count < m/8) < 1e-18 and P(count > 3m + 8) < 1e-30 (Chernoff), per value.
-                let mean = *samples as u64 / r;
+                // Every value's count is Binomial(n, 1/r) for ANY sampler with equal preimage counts fed with
+                // independent uniform words (rejected words are simply redrawn). With mean m = n / r >= 64:
+                // P(count < m/8) < 1e-18 and P(count > 3m + 8) < 1e-30 (Chernoff), per value. Long censuses (soaks) are
+                // evaluated window by window (128 r calls each), so that a sampler whose behaviour changes after very many
+                // calls is caught in the window where it changes; `worst` holds the first bad window's evidence.
+                let mean = window / r;
                 let (lo_b, hi_b) = (mean / 8, 3 * mean + 8);
-                let mut worst: Option<(Vec<u8>, u64)> = None;
-                for k in 0..r {
-                    let x = refint::add(low, &refint::from_u64(k, width));
-                    let c = counts.get(&x).copied().unwrap_or(0);
-                    if c < lo_b || c > hi_b {
-                        worst = Some((x, c));
-                        break;
-                    }
+                if worst.is_none() && in_window == window {
+                    worst = census_window(&counts, low, r, width, lo_b, hi_b).map(|(x, c)| (x, c, windows_done));
                 }
                 if want_log {
-                    log.push(format!("op {} census over {} value(s), {} calls: counts min {} max {}", oi, r, samples, (0..r).map(|k| counts.get(&refint::add(low, &refint::from_u64(k, width))).copied().unwrap_or(0)).min().unwrap_or(0), counts.values().max().copied().unwrap_or(0)));
+                    log.push(format!("op {} census over {} value(s), {} calls in {} window(s) of {}: last window counts min {} max {}", oi, r, samples, windows_done + 1, window, (0..r).map(|k| counts.get(&refint::add(low, &refint::from_u64(k, width))).copied().unwrap_or(0)).min().unwrap_or(0), counts.values().max().copied().unwrap_or(0)));
                 }
+                let worst = worst.map(|(x, c, wi)| {
+                    let _ = wi;
+                    (x, c)
+                });
                 match worst {
                     Some((x, c)) => viol.push(Violation {
                         class: "value_frequency",
                         op: oi,
                         call: 0,
                         detail: format!(
-                            "{} on [{}, {}] ({} values): over {} calls on fresh independent uniform words value {} was returned {} times (mean for equal preimage counts: {}; a count outside [{}, {}] has probability < 1e-17 for any such sampler) — values are not equally likely, so they cannot have equally many accepted words",
-                            ["gen_range", "sample_single", "Uniform::sample"][*via as usize % 3], hex(low), hex(&high_incl), r, samples, hex(&x), c, mean, lo_b, hi_b
+                            "{} on [{}, {}] ({} values): in calls {}..{} of this op, all on fresh independent uniform words, value {} was returned {} times (mean for equal preimage counts: {}; a count outside [{}, {}] has probability < 1e-17 for any such sampler) — values are not equally likely, so they cannot have equally many accepted words",
+                            ["gen_range", "sample_single", "Uniform::sample"][*via as usize % 3], hex(low), hex(&high_incl), r, windows_done * window, windows_done * window + in_window, hex(&x), c, mean, lo_b, hi_b
                         ),
                     }),
                     None => bump(&mut counters, "probe_census_all_values_seen"),
@@ -1469,6 +1490,18 @@ pub(crate) fn outcome_class<T>(r: &Result<T, PanicClass>) -> u64 {
         Err(PanicClass::Budget) => 5,
         Err(PanicClass::Other(_)) => 6,
     }
+}
+
+/// first value of the range whose count in this census window is outside [lo_b, hi_b]
+fn census_window(counts: &BTreeMap<Vec<u8>, u64>, low: &[u8], r: u64, width: usize, lo_b: u64, hi_b: u64) -> Option<(Vec<u8>, u64)> {
+    for k in 0..r {
+        let x = refint::add(low, &refint::from_u64(k, width));
+        let c = counts.get(&x).copied().unwrap_or(0);
+        if c < lo_b || c > hi_b {
+            return Some((x, c));
+        }
+    }
+    None
 }
 
 fn state_tuple(ty: u64, kind: u64, shape: u8, q: u64, fault: u64, attempts: usize, outcome: u64) -> u64 {
